@@ -123,6 +123,11 @@ func (c *Collection) Update(id string, msg proto.Message, opts ...WriteOption) (
 				if err != nil {
 					return nil, err
 				}
+				if c.idInterceptor != nil {
+					// store (and report) the id in its intercepted form, like ids supplied by the caller,
+					// or later calls with the reported id would not find the item
+					id = c.idInterceptor(id)
+				}
 				if writeRequest.idCallback != nil {
 					writeRequest.idCallback(id)
 				}
